@@ -220,3 +220,45 @@ def unprotected_managed_reads(prog, cls):
         outside = [n for n in reads if not in_int_context(pm, n)]
         out.append((fn, len(reads) - len(outside), outside))
     return out
+
+
+def typed_unprotected_reads(prog, func, managed_class="FrequencyAxis"):
+    """Reads of units-managed properties of an object that the code itself has established to be a
+    `managed_class` instance (branch of `isinstance(x, managed_class)`), outside energy_units('int').
+    Returns (number of typed reads examined, [unprotected Attribute nodes])."""
+    cls = None
+    for m_ in prog.modules.values():
+        if managed_class in m_.classes:
+            cls = m_.classes[managed_class]
+    if cls is None:
+        return 0, []
+    managed = managed_attributes(prog, cls)
+    pm = parents_map(func.node)
+    total, bad = 0, []
+    for n in walk_no_nested(func.node):
+        if not (isinstance(n, ast.If) and isinstance(n.test, ast.Call) and call_name(n.test) == "isinstance"
+                and len(n.test.args) == 2 and isinstance(n.test.args[0], ast.Name)
+                and norm(n.test.args[1]).split(".")[-1] == managed_class):
+            continue
+        var = n.test.args[0].id
+        names = {var: 0}         # name -> line from which it denotes the managed object
+        ends = {}                # name -> line at which it is rebound to something else
+        body_nodes = [x for st in n.body for x in ast.walk(st)]
+        for x in sorted([y for y in body_nodes if isinstance(y, ast.Assign)], key=lambda y: y.lineno):
+            for t_ in x.targets:
+                if isinstance(t_, ast.Name):
+                    if isinstance(x.value, ast.Name) and x.value.id in names and x.value.id not in ends:
+                        names[t_.id] = x.lineno
+                        ends.pop(t_.id, None)
+                    elif t_.id in names and t_.id not in ends:
+                        ends[t_.id] = x.lineno
+        for x in body_nodes:
+            if isinstance(x, ast.Attribute) and isinstance(x.ctx, ast.Load) and isinstance(x.value, ast.Name) \
+                    and x.value.id in names and x.attr in managed:
+                ln = x.lineno
+                if ln < names[x.value.id] or (x.value.id in ends and ln > ends[x.value.id]):
+                    continue
+                total += 1
+                if not in_int_context(pm, x):
+                    bad.append(x)
+    return total, bad
